@@ -223,6 +223,59 @@ def gates(res, prog, c, f):
         res.violation('C19.3', 'C19.3|accessible', f, f.line, 'try_bit_flips does not return before the loop when the examined address is mapped and permitted')
 
 
+def operands(res, prog, c, f):
+    """C19.6: which memory map and which access kind the candidates are judged against"""
+    res.rule('C19.6', 0, floor=8, note='try_bit_flips is always handed the dump\'s memory map, the selected bit range and the access kind derived from the crash reason; inside, the lookups use exactly those')
+    g = need_fn(res, c, CHECK, 'C19.6')
+    if g is not None:
+        for b, t in g.calls():
+            if g.callee(t) != TBF:
+                continue
+            a = [g.expand(g.operand_tree(x)) for x in t['args']]
+            if len(a) != 6:
+                res.error('C19.6', 'try_bit_flips no longer takes 6 arguments')
+                continue
+            res.rule('C19.6', 1)
+            op = a[5]
+            ok = is_call(op, 'MemoryOperation::from_crash_reason') and re.search(r'(^|[ .(])info\)?\.reason$|exception_details\.info\.reason$', show(op[2]))
+            if not ok:
+                res.violation('C19.6', 'C19.6|operation', g, t.get('line'), 'try_bit_flips is not given MemoryOperation::from_crash_reason(&info.reason) as the access kind, but %s' % show(op)[:160])
+            res.rule('C19.6', 1)
+            if show(a[4]) not in ('self.memory_info', '(deref self).memory_info'):
+                res.violation('C19.6', 'C19.6|map', g, t.get('line'), 'try_bit_flips is not given self.memory_info, but %s' % show(a[4])[:160])
+            res.rule('C19.6', 1)
+            if not re.match(r'^\(Some\.0 \w+\)\.1$', show(a[2])):
+                res.violation('C19.6', 'C19.6|range', g, t.get('line'), 'try_bit_flips is not given the selected bit range, but %s' % show(a[2])[:160])
+    # inside: receivers are the parameters
+    bodies = [(f, None)]
+    for cl in c.fns:
+        if re.match(re.escape(f.qual) + r'::\{closure#\d+\}$', cl.qual):
+            par, env = closure_env(prog, cl)
+            bodies.append((cl, env))
+
+    def param(h, env, tree, idx):
+        tree = h.expand(tree)
+        if env is not None:
+            tree = resolve_upvars(h, tree, env)
+        while isinstance(tree, tuple) and tree and tree[0] in ('ref', 'deref', 'copy') and len(tree) == 2:
+            tree = tree[1]
+        return isinstance(tree, tuple) and tree and tree[0] == 'var' and tree[2] == idx
+    for h, env in bodies:
+        for b, t in h.calls():
+            nm = h.callee(t)
+            if nm.endswith('memory_info_at_address'):
+                res.rule('C19.6', 1)
+                if not param(h, env, h.operand_tree(t['args'][0]), 5):
+                    res.violation('C19.6', 'C19.6|lookup-map', h, t.get('line'), 'memory_info_at_address is not asked of the memory_info parameter: %s' % show(h.expand(h.call_tree(t)))[:160])
+            elif nm.endswith('is_possibly_allowed_for') or nm.endswith('MemoryOperation::is_allowed_for'):
+                res.rule('C19.6', 1)
+                if not param(h, env, h.operand_tree(t['args'][0]), 6):
+                    res.violation('C19.6', 'C19.6|lookup-op', h, t.get('line'), 'the permission test is not made with the memory_operation parameter: %s' % show(h.expand(h.call_tree(t)))[:160])
+                region = h.expand(h.operand_tree(t['args'][1]))
+                if 'memory_info_at_address' not in show(region):
+                    res.violation('C19.6', 'C19.6|lookup-region', h, t.get('line'), 'the permission test is not made on the region found by memory_info_at_address: %s' % show(region)[:160])
+
+
 def feval(tree, consts):
     """constant-fold a float expression tree"""
     if tree[0] == 'float':
@@ -360,6 +413,7 @@ def run(tier, t0):
     if f is not None:
         mapped_or_null(res, prog, c, f)
         gates(res, prog, c, f)
+        operands(res, prog, c, f)
     confidence(res, prog, c)
     permission_table(res, prog, c)
     res.assumptions += [
